@@ -67,7 +67,11 @@ LDef == Language("org.verif.def",
 
 (* --- multi-level inheritance: absent / no-reaches / -> / +> ----------------- *)
 LInh == Language("org.verif.inh",
-  << Asset("R0", NONE, <<>>, << Or("s", NoR), Or("t", NoR), Or("q", Ovr(<< St("t") >>)) >>),
+  << Asset("R0", NONE, <<>>, << Or("s", NoR), Or("t", NoR), Or("q", Ovr(<< St("t") >>)),
+                                \* type filters whose matches may sit several levels below the filter type
+                                Ex("ex", Sb("R1", F("fr")), Ovr(<< St("t") >>)),
+                                NEx("nex", Sb("R2", F("fl")), NoR),
+                                Or("w", Ovr(<< Col(Sb("R1", F("fr")), St("s")), Col(Sb("R3", F("fl")), St("q")) >>)) >>),
      Asset("R1", "R0", <<>>, << Or("s", Ext(<< Col(F("fr"), St("t")) >>)) >>),
      Asset("R2", "R1", <<>>, << Or("s", Ext(<< Col(F("fr"), St("s")) >>)), Or("q", NoR) >>),
      Asset("R3", "R2", <<>>, << Or("s", Ovr(<< St("q") >>)), Or("q", Ext(<< Col(F("fl"), St("q")) >>)) >>),
